@@ -42,7 +42,11 @@ Inductive stmt :=
 | SReturn
 | SSeq (a b : stmt)
 | SIf (a b : stmt)
-| SLoop (body : stmt).
+| SLoop (body : stmt)
+| SCall (callee : nat) (args : list (list nat)) (eff : stmt).
+  (* a call of entry number `callee` of the emitted table; args = the caller's registers handed to each
+     parameter register of the callee; eff = what the translator says the call does to the caller's registers.
+     It executes as eff; that eff honours the callee's contract is checked on the table (calls_ok). *)
 
 Fixpoint seq (l : list stmt) : stmt :=
   match l with
@@ -112,17 +116,31 @@ Inductive exec : pstate -> stmt -> outcome -> pstate -> Prop :=
 | E_loop_exit st b : exec st (SLoop b) ONormal st
 | E_loop_iter st b o st1 o' st2 : o <> OReturn -> exec st b o st1 -> exec st1 (SLoop b) o' st2 ->
     exec st (SLoop b) o' st2
-| E_loop_return st b st1 : exec st b OReturn st1 -> exec st (SLoop b) OReturn st1.
+| E_loop_return st b st1 : exec st b OReturn st1 -> exec st (SLoop b) OReturn st1
+| E_call st c args eff o st' : exec st eff o st' -> exec st (SCall c args eff) o st'.
 
-(* ---- the ownership analysis (executable: this is what vm_compute runs on the emitted table) ---- *)
+(* ---- the ownership analysis (executable: this is what vm_compute runs on the emitted table) ----
+   Three flags per register:
+     fw  the function may WRITE through the register: everything it may show is memory allocated in the call
+         or memory of a parameter the caller must own in the write sense;
+     fk  what it shows may be KEPT / RETURNED: memory allocated in the call or of a parameter the caller
+         must own in the keep sense;
+     fp  (objects) PRIVATE: the object was built here and has not been handed out.  A store into a private
+         object only lowers its flags; a store into any other object lets the stored value escape. *)
 
-Definition andl (a b : list bool) : list bool := map (fun p => andb (fst p) (snd p)) (combine a b).
-Definition lel (a b : list bool) : bool := forallb (fun p => implb (fst p) (snd p)) (combine a b).
-Definition top (own : list bool) : list bool := map (fun _ => true) own.
+Record fl := mkfl { fw : bool; fk : bool; fp : bool }.
+Definition ftop := mkfl true true true.
+Definition fbot := mkfl false false false.
+Definition fand (a b : fl) : fl := mkfl (fw a && fw b) (fk a && fk b) (fp a && fp b).
+Definition fle (a b : fl) : bool := implb (fw a) (fw b) && implb (fk a) (fk b) && implb (fp a) (fp b).
+
+Definition andl (a b : list fl) : list fl := map (fun p => fand (fst p) (snd p)) (combine a b).
+Definition lel (a b : list fl) : bool := forallb (fun p => fle (fst p) (snd p)) (combine a b).
+Definition top (own : list fl) : list fl := map (fun _ => ftop) own.
 
 (* the fixpoint of a loop: lower the flags at the loop head until one more iteration cannot lower them *)
-Fixpoint loop_fix (f : list bool -> option (list bool * list bool)) (fuel : nat) (hd : list bool)
-  : option (list bool) :=
+Fixpoint loop_fix (f : list fl -> option (list fl * list fl)) (fuel : nat) (hd : list fl)
+  : option (list fl) :=
   match fuel with
   | O => None
   | S k => match f hd with
@@ -134,24 +152,27 @@ Fixpoint loop_fix (f : list bool -> option (list bool * list bool)) (fuel : nat)
 
 (* own_stmt s own = Some (n, j): s follows the discipline from the flags own; n = flags when s ends
    normally, j = meet of the flags at every break/continue inside s (all true if there is none).
-   None = s writes through, or lets escape, a slice that is not owned. *)
-Fixpoint own_stmt (s : stmt) (own : list bool) : option (list bool * list bool) :=
-  let o v := nth v own false in
+   None = s writes through a register that is not writable, or lets escape one that is not keepable. *)
+Fixpoint own_stmt (s : stmt) (own : list fl) : option (list fl * list fl) :=
+  let o v := nth v own fbot in
   let ok x := Some (x, top own) in
   match s with
-  | SMake r => ok (set_nth r true own)
+  | SMake r => ok (set_nth r ftop own)
   | SSub r v => ok (set_nth r (o v) own)
   | SAlias r v => ok (set_nth r (o v) own)
-  | SPhi r vs => ok (set_nth r (forallb o vs) own)
-  | SOpaque r => ok (set_nth r false own)
-  | SSet v => if o v then ok own else None
-  | SWrite v => if o v then ok own else None
-  | SAppend r v => if o v then ok (set_nth r true own) else None
-  | SCopy d _ => if o d then ok own else None
-  | SConcat r _ => ok (set_nth r true own)
-  | SClone r _ => ok (set_nth r true own)
-  | SStore x v => if o x then ok (set_nth x (o v) own) else if o v then ok own else None
-  | SEscape v => if o v then ok own else None
+  | SPhi r vs => ok (set_nth r (fold_right (fun v a => fand (o v) a) ftop vs) own)
+  | SOpaque r => ok (set_nth r fbot own)
+  | SSet v => if fw (o v) then ok own else None
+  | SWrite v => if fw (o v) then ok own else None
+  | SAppend r v => if fw (o v) then ok (set_nth r (mkfl true (fk (o v)) (fp (o v))) own) else None
+  | SCopy d _ => if fw (o d) then ok own else None
+  | SConcat r _ => ok (set_nth r ftop own)
+  | SClone r _ => ok (set_nth r ftop own)
+  | SStore x v =>
+      if fp (o x) then ok (set_nth x (mkfl (fw (o x) && fw (o v)) (fk (o x) && fk (o v)) true) own)
+      else if fk (o v) then ok (set_nth x (mkfl (fw (o x) && fw (o v)) (fk (o x)) false) own)
+      else None
+  | SEscape v => if fk (o v) then ok (set_nth v (mkfl (fw (o v)) true false) own) else None
   | SSkip => ok own
   | SJump => Some (top own, own)
   | SReturn => Some (top own, top own)
@@ -166,11 +187,84 @@ Fixpoint own_stmt (s : stmt) (own : list bool) : option (list bool * list bool) 
                | Some (na, ja), Some (nb, jb) => Some (andl na nb, andl ja jb)
                | _, _ => None
                end
-  | SLoop b => match loop_fix (own_stmt b) (S (length own)) own with
+  | SLoop b => match loop_fix (own_stmt b) (S (length own + length own + length own)) own with
                | Some hd => Some (hd, top own)
                | None => None
                end
+  | SCall _ _ eff => own_stmt eff own
   end.
 
-Definition body_disciplined (own0 : list bool) (p : stmt) : bool :=
-  match own_stmt p own0 with Some _ => true | None => false end.
+(* initial flags: a parameter register is shared with the caller (never private); the caller's contract says
+   whether it may be written / kept; every other register starts as unknown memory *)
+Definition init_flags (wf kf : list bool) : list fl :=
+  map (fun p => mkfl (fst p) (snd p) false) (combine wf kf).
+
+Definition body_disciplined (wf kf : list bool) (p : stmt) : bool :=
+  match own_stmt p (init_flags wf kf) with Some _ => true | None => false end.
+
+(* ---- syntactic side conditions checked on the emitted table ---- *)
+
+Fixpoint mem (n : nat) (l : list nat) : bool :=
+  match l with [] => false | x :: l' => Nat.eqb n x || mem n l' end.
+
+(* object registers stand for a whole may-alias class and are never copied: they are defined by SMake /
+   SOpaque / being a parameter and change only by SStore or by a self-including SPhi (a variable of the
+   class is bound to one more object) *)
+Fixpoint obj_wf (objs : list nat) (s : stmt) : bool :=
+  match s with
+  | SSub r _ | SAlias r _ | SAppend r _ | SConcat r _ | SClone r _ => negb (mem r objs)
+  | SPhi r vs => negb (mem r objs) || mem r vs
+  | SSeq a b | SIf a b => obj_wf objs a && obj_wf objs b
+  | SLoop b => obj_wf objs b
+  | SCall _ _ eff => obj_wf objs eff
+  | _ => true
+  end.
+
+(* does the effect contain a write through / an escape of register a? *)
+Fixpoint has_write (a : nat) (s : stmt) : bool :=
+  match s with
+  | SWrite v | SSet v | SAppend _ v | SCopy v _ => Nat.eqb v a
+  | SSeq x y | SIf x y => has_write a x || has_write a y
+  | SLoop b => has_write a b
+  | SCall _ _ eff => has_write a eff
+  | _ => false
+  end.
+
+Fixpoint has_escape (a : nat) (s : stmt) : bool :=
+  match s with
+  | SEscape v => Nat.eqb v a
+  | SSeq x y | SIf x y => has_escape a x || has_escape a y
+  | SLoop b => has_escape a b
+  | SCall _ _ eff => has_escape a eff
+  | _ => false
+  end.
+
+(* one call record against the contract (write flags, keep flags) of its callee: every caller register handed
+   to a parameter the callee may write through is written through in the effect, every one handed to a
+   parameter the callee may keep escapes in the effect *)
+Fixpoint call_ok_args (wf kf : list bool) (args : list (list nat)) (eff : stmt) : bool :=
+  match args with
+  | [] => true
+  | a :: args' =>
+      (if hd false wf then forallb (fun r => has_write r eff) a else true) &&
+      (if hd false kf then forallb (fun r => has_escape r eff) a else true) &&
+      call_ok_args (tl wf) (tl kf) args' eff
+  end.
+
+(* all call records of a body, given the contracts of the table *)
+Fixpoint calls_ok (contract : nat -> list bool * list bool) (s : stmt) : bool :=
+  match s with
+  | SCall c args eff => call_ok_args (fst (contract c)) (snd (contract c)) args eff && calls_ok contract eff
+  | SSeq a b | SIf a b => calls_ok contract a && calls_ok contract b
+  | SLoop b => calls_ok contract b
+  | _ => true
+  end.
+
+(* can the analysis fail on this body at all? *)
+Fixpoint can_fail (s : stmt) : bool :=
+  match s with
+  | SSet _ | SWrite _ | SAppend _ _ | SCopy _ _ | SStore _ _ | SEscape _ => true
+  | SSeq a b | SIf a b => can_fail a || can_fail b
+  | SLoop b | SCall _ _ b => can_fail b
+  | _ => false
+  end.
